@@ -1,6 +1,6 @@
 """Count-prefixed lists and strings (C15; string part also used by C17)."""
 import re
-from terms import FA, show, mk, ty_of, is_const, const_val, T, subterms
+from terms import err_variant, FA, show, mk, ty_of, is_const, const_val, T, subterms
 from facts import callee_of
 from intervals import Intervals
 from algebra import fact_of_guard, canon_le, lin
@@ -245,7 +245,9 @@ def _decode_side(prog, res, mod, kind, N, f):
         for i, s in enumerate(f.blocks[b]["stmts"]):
             if s["k"] == "assign" and s["place"]["local"] == 0 and s["rv"]["k"] == "aggregate" and s["rv"].get("vname") == "Err":
                 v = fa.rv_term(s["rv"], (b, i))
-                errs.add(v.args[3][0].args[2])
+                _ev = err_variant(v)
+                if _ev is not None:
+                    errs.add(_ev)
     res.ob("K-guard", "%s::decode | a count above the capacity is reported as CapacityExceeded" % mod, errs == {"CapacityExceeded"}, str(sorted(errs)), loc)
 
 
@@ -345,8 +347,14 @@ def rule_error_propagation(prog, res, closure, side="decode", floor=None):
         for b, t in f.calls():
             c = callee_of(t)
             if c in RESULT_SWALLOW:
-                res.ob("E-prop", "%s | %s" % (p, c.rsplit("::", 1)[1]), False, "a decode/encode error is inspected or swallowed instead of propagated",
-                       {"file": f.loc["file"], "line": t["line"]})
+                # only a swallowed *codec* error counts: `u8::try_from(n).ok()` turns a TryFromIntError into an Option, which is a range test
+                ety = None
+                ca = t.get("cargs") or t.get("rargs") or []
+                if len(ca) >= 2:
+                    ety = ca[1]
+                if ety is None or ety.get("path") == "rtcm_error::RtcmError" or ety.get("k") in ("param", "other"):
+                    res.ob("E-prop", "%s | %s" % (p, c.rsplit("::", 1)[1]), False, "a decode/encode error is inspected or swallowed instead of propagated",
+                           {"file": f.loc["file"], "line": t["line"]})
                 continue
             dty = None
             pl = t["dest"]
@@ -358,21 +366,33 @@ def rule_error_propagation(prog, res, closure, side="decode", floor=None):
                 L = pl["local"]
                 if L == 0:
                     continue
-                # must be consumed: operand of Try::branch, or moved to _0, or its discriminant read
+                # must be consumed: operand of Try::branch, or moved to _0, or its discriminant read - directly or after being moved into
+                # another local (`let r = match .. { arm => encode(..), .. }; r?`)
+                holders = {L}
+                grew = True
+                while grew:
+                    grew = False
+                    for bb in f.reachable():
+                        for s in f.blocks[bb]["stmts"]:
+                            if s["k"] == "assign" and not s["place"]["proj"] and s["rv"]["k"] == "use" and s["rv"]["op"]["k"] in ("copy", "move") \
+                                    and not s["rv"]["op"]["place"]["proj"] and s["rv"]["op"]["place"]["local"] in holders and s["place"]["local"] not in holders \
+                                    and s["place"]["local"] != 0:
+                                holders.add(s["place"]["local"])
+                                grew = True
                 used = False
                 for bb in f.reachable():
                     blk = f.blocks[bb]
                     for s in blk["stmts"]:
                         if s["k"] == "assign":
                             rv = s["rv"]
-                            if rv["k"] == "discr" and rv["place"]["local"] == L:
+                            if rv["k"] == "discr" and rv["place"]["local"] in holders:
                                 used = True
-                            if rv["k"] == "use" and rv["op"]["k"] in ("copy", "move") and rv["op"]["place"]["local"] == L and s["place"]["local"] == 0:
+                            if rv["k"] == "use" and rv["op"]["k"] in ("copy", "move") and rv["op"]["place"]["local"] in holders and s["place"]["local"] == 0:
                                 used = True
                     tt = blk["term"]
                     if tt["k"] == "call" and callee_of(tt) == BRANCH:
                         for a in tt["args"]:
-                            if a["k"] in ("copy", "move") and a["place"]["local"] == L:
+                            if a["k"] in ("copy", "move") and a["place"]["local"] in holders:
                                 used = True
                 if not used:
                     res.ob("E-prop", "%s | result of %s" % (p, c), False, "the Result of this call is never propagated or matched",
